@@ -1,11 +1,14 @@
 package main
 
 // family "val": FIX value types (C14, C09).  Ops:
-//   int read <hex> | int write <v> | bool read <hex> | bool write y|n | float read <hex>
-//   ts read <hex> | ts write <prec> y mo d h mi s ns | str read <hex>
-//   rt int <v> | rt ts <prec> ... | rt float <hexbits> | rt dec <text> <scale>   (write then read on the implementation; monitor only)
+//   int read <hex> | int write <v> | bool read <hex> | bool write y|n
+//   float read <hex>        -> ok <16 hex digits of math.Float64bits of the value read> | err
+//   float write <16 hex>    -> hex of FIXFloat(math.Float64frombits(bits)).Write()   (finite values only)
+//   ts read <hex> | ts write <prec> y mo d h mi s ns | str read <hex> | dec read/write, udec write
 import (
 	"fmt"
+	"math"
+	"math/big"
 	"strconv"
 	"strings"
 	"time"
@@ -58,7 +61,13 @@ func (valImpl) exec(op string) string {
 			if err := f.Read(unhx(w[2])); err != nil {
 				return "err"
 			}
-			return "ok"
+			return fmt.Sprintf("ok %016x", math.Float64bits(f.Float64()))
+		case w[0] == "float" && w[1] == "write":
+			bits, err := strconv.ParseUint(w[2], 16, 64)
+			if err != nil || len(w[2]) != 16 || bits>>52&0x7ff == 0x7ff {
+				panic("bad float bits in op: " + w[2])
+			}
+			return hx(quickfix.FIXFloat(math.Float64frombits(bits)).Write())
 		case w[0] == "dec" && w[1] == "read":
 			var f quickfix.FIXDecimal
 			if err := f.Read(unhx(w[2])); err != nil {
@@ -208,19 +217,8 @@ func genVal(r *rng, tier string, idx int, o *out, do func(string) string) string
 			o.kind("bool.read." + strings.Fields(res)[0])
 			o.nontrivial("bool.read:" + string(b))
 			do("bool write " + yn(r.chance(1, 2)))
-		case c < 7: // float acceptance
-			var b []byte
-			n := r.intn(7)
-			alpha := []byte("0123456789.-")
-			if r.chance(1, 4) {
-				alpha = []byte("0123456789.-+eExX_ iInNfFaApP")
-			}
-			for i := 0; i < n; i++ {
-				b = append(b, r.pickByte(alpha))
-			}
-			res := do("float read " + hx(b))
-			o.kind("float.read." + res)
-			o.nontrivial("float.read:" + string(b))
+		case c < 7: // float: texts (syntax and value) and bit patterns (write, then read the text back)
+			genFloat(r, o, do)
 		case c < 10: // ts read
 			b := genTsText(r)
 			res := do("ts read " + hx(b))
@@ -243,6 +241,229 @@ func genVal(r *rng, tier string, idx int, o *out, do func(string) string) string
 		}
 	}
 	return "val"
+}
+
+// ---- float texts and values
+
+func zeros(n int) string { return strings.Repeat("0", n) }
+
+func randDigits(r *rng, n int) string {
+	b := make([]byte, n)
+	for i := range b {
+		b[i] = byte('0' + r.intn(10))
+	}
+	return string(b)
+}
+
+// exactText: the exact decimal expansion of a rational whose denominator is a power of two
+func exactText(q *big.Rat) string {
+	t := q.FloatString(q.Denom().BitLen())
+	if strings.Contains(t, ".") {
+		t = strings.TrimRight(strings.TrimRight(t, "0"), ".")
+	}
+	return t
+}
+
+var floatLandmarks = []string{
+	"9007199254740992", "9007199254740993", "9007199254740991", "9007199254740995", "18014398509481985", // 2^53 ± , halfway cases
+	"9223372036854775807", "9223372036854775808", "9223372036854775809", "9223372036854774784", // 2^63
+	"18446744073709551615", "18446744073709551616", "18446744073709551617", "18446744073709549568", // 2^64
+	"10000000000000000000", "9999999999999999999", "10000000000000000001", "12345678901234567890",
+	"10000000000000000000000", "9999999999999999999999", "10000000000000000000001", "100000000000000000000000",
+	"99999999999999983222784", "99999999999999991611392", "99999999999999991611393", "99999999999999991611391",
+}
+
+func finiteBits(r *rng) uint64 {
+	for {
+		b := r.u64()
+		if b>>52&0x7ff != 0x7ff {
+			return b
+		}
+	}
+}
+
+func genFloat(r *rng, o *out, do func(string) string) {
+	read := func(kind string, t string) string {
+		res := do("float read " + hx([]byte(t)))
+		o.kind("float.read." + kind + "." + strings.Fields(res)[0])
+		if len(t) < 40 {
+			o.nontrivial("float.read:" + t)
+		} else {
+			o.nontrivial(fmt.Sprintf("float.read:%s…%d", t[:40], len(t)))
+		}
+		return res
+	}
+	sign := func(t string) string {
+		if r.chance(1, 4) {
+			return "-" + t
+		}
+		return t
+	}
+	switch k := r.intn(16); {
+	case k < 3: // short strings over the alphabet, near-miss characters
+		var b []byte
+		n := r.intn(7)
+		alpha := []byte("0123456789.-")
+		if r.chance(1, 4) {
+			alpha = []byte("0123456789.-+eExX_ iInNfFaApP")
+		}
+		for i := 0; i < n; i++ {
+			b = append(b, r.pickByte(alpha))
+		}
+		read("short", string(b))
+	case k == 3: // whole numbers of 15–25 digits: landmarks (2^53, 2^63, 2^64, 10^19, 10^22) and their neighbourhood
+		t := r.pick(floatLandmarks)
+		if r.chance(1, 2) {
+			v, _ := new(big.Int).SetString(t, 10)
+			v.Add(v, big.NewInt(int64(r.intn(4097)-2048)))
+			t = v.String()
+		}
+		if r.chance(1, 6) {
+			t += "." + randDigits(r, r.intn(4))
+		}
+		read("whole", sign(t))
+	case k == 4: // random whole numbers of 15–25 digits
+		read("whole", sign(strconv.Itoa(1+r.intn(9))+randDigits(r, 14+r.intn(11))))
+	case k == 5: // long fractions
+		ip := ""
+		if r.chance(2, 3) {
+			ip = strconv.Itoa(r.intn(100000))
+		}
+		read("fraction", sign(ip+"."+randDigits(r, 1+r.intn(30))))
+	case k == 6: // range limits written positionally
+		var t string
+		switch r.intn(8) {
+		case 0:
+			t = "1" + zeros(306+r.intn(5))
+		case 1: // around the largest finite value and the overflow threshold 2^1024 - 2^970 (exact, ±1, truncated prefixes)
+			v := new(big.Int).Lsh(big.NewInt(1), 1024)
+			v.Sub(v, new(big.Int).Lsh(big.NewInt(1), 970))
+			if r.chance(1, 2) {
+				v, _ = new(big.Float).SetFloat64(math.MaxFloat64).Int(nil)
+			}
+			v.Add(v, big.NewInt(int64(r.intn(3)-1)))
+			t = v.String()
+			if r.chance(1, 2) {
+				n := 15 + r.intn(8)
+				bs := []byte(t[:n])
+				if r.chance(1, 2) && bs[n-1] < '9' {
+					bs[n-1]++
+				}
+				t = string(bs) + zeros(len(t)-n)
+			}
+			if r.chance(1, 5) {
+				t += "." + randDigits(r, 1+r.intn(3))
+			}
+		case 2: // smallest subnormal 4.94e-324 and its half 2.47e-324
+			t = "0." + zeros(323) + r.pick([]string{"5", "49", "494", "4940656458412465", "24703282292062327", "24703282292062328", "2470328229206232720882843964341106861825299013071623822127928412503377536351043",
+				"2470328229206232720882843964341106861825299013071623822127928412503377536351044", "25", "24", "3", "2", "7", "74", "75", "741"})
+		case 3: // smallest normal 2.2250738585072014e-308 and the largest subnormal
+			t = "0." + zeros(307) + r.pick([]string{"22250738585072014", "22250738585072011", "2225073858507201", "22250738585072009", "2225073858507202", "1", "10000000000000001"})
+		case 4:
+			t = "0." + zeros(300+r.intn(60)) + strconv.Itoa(1+r.intn(9)) + randDigits(r, r.intn(20))
+		case 5:
+			t = strconv.Itoa(1+r.intn(9)) + randDigits(r, 290+r.intn(25))
+		case 6:
+			t = "1" + zeros(r.intn(30)) + "." + zeros(r.intn(30)) + "1"
+		default:
+			t = zeros(r.intn(400)) + "." + zeros(r.intn(400)) + strconv.Itoa(r.intn(10))
+		}
+		read("limit", sign(t))
+	case k == 7 || k == 8: // exact halfway points between adjacent doubles, and one unit in the last place to either side
+		var bits uint64
+		if k == 7 { // whole-valued: 2^53 ≤ x < 2^75
+			bits = uint64(1023+53+r.intn(22))<<52 | r.u64()&(1<<52-1)
+		} else {
+			bits = uint64(1023-40+r.intn(80))<<52 | r.u64()&(1<<52-1)
+			if r.chance(1, 4) {
+				bits = uint64(r.intn(3))<<52 | r.u64()&(1<<52-1)>>uint(r.intn(52)) // subnormals and the first binades (long texts)
+			}
+		}
+		if r.chance(1, 3) {
+			bits &^= 1<<uint(r.intn(53)) - 1 // short mantissas, powers of two (asymmetric neighbours)
+			if bits == 0 {
+				bits = 1
+			}
+		}
+		a := new(big.Rat).SetFloat64(math.Float64frombits(bits))
+		b := new(big.Rat).SetFloat64(math.Float64frombits(bits + 1))
+		if r.chance(1, 4) && bits > 1 {
+			b = new(big.Rat).SetFloat64(math.Float64frombits(bits - 1))
+		}
+		t := exactText(a.Add(a, b).Quo(a, big.NewRat(2, 1)))
+		switch r.intn(4) {
+		case 0: // just above: one more digit
+			if !strings.Contains(t, ".") {
+				t += "."
+			}
+			t += zeros(r.intn(20)) + "1"
+		case 1: // just below: last digit lowered, nines appended
+			bs := []byte(t)
+			i := len(bs) - 1
+			if bs[i] > '0' && bs[i] <= '9' {
+				bs[i]--
+				t = string(bs)
+				if !strings.Contains(t, ".") {
+					t += "."
+				}
+				t += strings.Repeat("9", 1+r.intn(20))
+			}
+		}
+		read("halfway", sign(t))
+	case k == 9: // zeros with and without sign
+		read("zero", r.pick([]string{"-0", "-0.0", "0", "0.0", "-0.000", "-.0", "-0.", "00", "-00.", "0.", ".0", "-000.000", "-0.0000000000000000000000000000", "-", ".", "-.", "--0", "-0-", "0-"}))
+	default: // write a value, then read the text back (and write that again)
+		var bits uint64
+		switch r.intn(9) {
+		case 0, 1:
+			bits = finiteBits(r)
+		case 2: // whole-valued doubles up to 1e22 and beyond
+			bits = math.Float64bits(float64(r.u64() >> uint(r.intn(64))))
+			if r.chance(1, 2) {
+				bits = uint64(1023+r.intn(120))<<52 | r.u64()&(1<<52-1)&^(1<<uint(r.intn(53))-1)
+			}
+		case 3: // powers of ten
+			bits = math.Float64bits(math.Pow(10, float64(r.intn(60)-25)))
+			if r.chance(1, 3) {
+				bits += uint64(r.intn(5)) - 2
+			}
+		case 4: // tiny: subnormals
+			bits = r.u64() & (1<<52 - 1) >> uint(r.intn(52))
+			if r.chance(1, 4) {
+				bits = []uint64{0, 1, 2, 3, 1<<52 - 1, 1 << 52, 1<<52 + 1}[r.intn(7)]
+			}
+		case 5: // what a user types: few decimal digits
+			f, _ := strconv.ParseFloat(fmt.Sprintf("%d.%0*d", r.intn(100000), 1+r.intn(8), r.intn(10)), 64)
+			bits = math.Float64bits(f)
+		case 6: // powers of two and their neighbours
+			bits = uint64(r.intn(2047)) << 52
+			if r.chance(1, 2) && bits > 0 {
+				bits += uint64(r.intn(3)) - 1
+			}
+		case 7: // limits
+			bits = []uint64{0x7fefffffffffffff, 0x7feffffffffffffe, 0x7fe0000000000000, 0x0010000000000000, 0x000fffffffffffff, 0x4340000000000000, 0x433fffffffffffff, 0x43e0000000000000, 0x43f0000000000000, 0x444b1ae4d6e2ef50, 0x3ff0000000000000, 0x3fb999999999999a}[r.intn(12)]
+		default: // around 1
+			bits = uint64(1023-4+r.intn(8))<<52 | r.u64()&(1<<52-1)
+		}
+		if r.chance(1, 3) {
+			bits |= 1 << 63
+		}
+		if bits>>52&0x7ff == 0x7ff {
+			bits = finiteBits(r)
+		}
+		res := do(fmt.Sprintf("float write %016x", bits))
+		o.kind("float.write")
+		o.nontrivial(fmt.Sprintf("float.write:%016x", bits))
+		if res != "panic" && res != "-" && len(res)%2 == 0 {
+			back := read("written", string(unhx(res)))
+			if w := strings.Fields(back); len(w) == 2 && len(w[1]) == 16 {
+				if b2, err := strconv.ParseUint(w[1], 16, 64); err == nil && b2>>52&0x7ff != 0x7ff && r.chance(1, 2) {
+					do(fmt.Sprintf("float write %016x", b2))
+					o.kind("float.write.again")
+				}
+			}
+		}
+	}
 }
 
 func genCivil(r *rng) (y, mo, d, h, mi, s, ns int) {
